@@ -191,7 +191,8 @@ def check_case(griffe, taps, case: dict, base: str) -> dict:
         got = clauses(case, real["tree"], real["file"], real["tgt_same"], real["err"], real["raised"], real["derefs"])
         for c in CLAUSES:
             if got[c]:
-                sig = {"clause": c, "tags": _tagstr(case), "predicted": got[c] == mine[c], "place": real["place"]}
+                sig = {"clause": c, "tags": _tagstr(case), "predicted": got[c] == mine[c], "place": real["place"],
+                       "site": "+".join(sorted({d["site"] for d in real["derefs"] if d["ok"]})) or "-"}
                 what = (f"{c} broken at {got[c]} (model: {mine[c] or 'holds'}) for a={_cell(case['a'])} b={_cell(case['b'])} mdoc={case['mdoc']} "
                         f"place={real['place']} order={real['order']} err={real['err']} {real['exc_text'][:80]}")
                 rep["violations"].append((sig, what))
@@ -210,7 +211,7 @@ def check_case(griffe, taps, case: dict, base: str) -> dict:
     pr, pi = _partition(reals), _partition(impls)
     if len(pr) > 1:
         names = [[f"{reals[i]['place']}/{reals[i]['order']}" for i in g] for g in pr]
-        sig = {"clause": "same", "tags": _tagstr(case), "predicted": pr == pi, "place": "all"}
+        sig = {"clause": "same", "tags": _tagstr(case), "predicted": pr == pi, "place": "all", "site": "-"}
         rep["violations"].append((sig, f"result depends on placement/order: groups {names} for a={_cell(case['a'])} b={_cell(case['b'])} mdoc={case['mdoc']}"))
     rep["facts"] = sorted(rep["facts"])
     return rep
@@ -221,8 +222,10 @@ def _cell(c: dict) -> str:
     if c["rk"] == "cls":
         r += f"[{c['irk']}{'~' if c['ibare'] else ''}]"
     s = c["sk"] + ("".join(x for x, bit in (("d", c["sdoc"]), ("a", c["sann"]), ("r", c["sret"]), ("o", c["sov"])) if bit) if c["sk"] in ("fun", "att", "cls") else "")
-    if c["sk"] == "fun" and c["spar"] == "diff":
-        s += "!"
+    if c["sk"] == "fun" and c["spar"] != "same":
+        s += "!" if c["spar"] == "diff" else "()"
+    if c["rk"] == "fun" and c.get("rpar") == "none":
+        r += "()"
     if c["sk"] == "cls":
         s += f"[{c['isk']}]"
     return r + "/" + s
